@@ -15,16 +15,18 @@ def needPosN (nd n0 count leading : Nat) (trim : Bool) (exact1 exact : Nat) : Na
 theorem posN_panic_iff (nd : Nat) (ds : List Nat) (e : Int) (o : WOpts) (b : WBuf)
     (hc1 : 1 ≤ (truncateAndRound ds o).1.length) (hc2 : (truncateAndRound ds o).1.length ≤ ds.length) :
     posN nd ds e o b = .panic ↔
-      b.len < needPosN nd ds.length (truncateAndRound ds o).1.length
+      b.len < needPosN nd ds.length (roundPos ds e o).1.length
         (e.toNat + 1 + (if (truncateAndRound ds o).2 = true then 1 else 0)) o.trim
         (minExactDigits (e.toNat + 1 + (if (truncateAndRound ds o).2 = true then 1 else 0) + 1) o)
-        (minExactDigits (truncateAndRound ds o).1.length o) := by
-  unfold posN needPosN
+        (minExactDigits (roundPos ds e o).1.length o) := by
+  unfold posN needPosN roundPos
   dsimp only
   generalize truncateAndRound ds o = tr at hc1 hc2 ⊢
-  obtain ⟨ds', c⟩ := tr
+  obtain ⟨dr, c⟩ := tr
   dsimp only at hc1 hc2 ⊢
-  generalize e.toNat + 1 + (if c = true then 1 else 0) = leading
+  have hk := trimPos_length o (e.toNat + 1 + (if c = true then 1 else 0)) dr hc1 (by omega)
+  generalize e.toNat + 1 + (if c = true then 1 else 0) = leading at hk ⊢
+  generalize trimPos o leading dr = ds' at hk ⊢
   generalize minExactDigits (leading + 1) o = ex1
   generalize minExactDigits ds'.length o = ex
   by_cases c1 : leading ≥ ds'.length
@@ -41,21 +43,23 @@ theorem posN_ok_facts (nd : Nat) (ds : List Nat) (e : Int) (o : WOpts) (b : WBuf
     (hc1 : 1 ≤ (truncateAndRound ds o).1.length) (hc2 : (truncateAndRound ds o).1.length ≤ ds.length)
     (h : posN nd ds e o b = .ok r) :
     r.buf.len = b.len ∧
-    r.cursor ≤ needPosN nd ds.length (truncateAndRound ds o).1.length
+    r.cursor ≤ needPosN nd ds.length (roundPos ds e o).1.length
         (e.toNat + 1 + (if (truncateAndRound ds o).2 = true then 1 else 0)) o.trim
         (minExactDigits (e.toNat + 1 + (if (truncateAndRound ds o).2 = true then 1 else 0) + 1) o)
-        (minExactDigits (truncateAndRound ds o).1.length o) ∧
-    r.buf.hi ≤ max b.hi (needPosN nd ds.length (truncateAndRound ds o).1.length
+        (minExactDigits (roundPos ds e o).1.length o) ∧
+    r.buf.hi ≤ max b.hi (needPosN nd ds.length (roundPos ds e o).1.length
         (e.toNat + 1 + (if (truncateAndRound ds o).2 = true then 1 else 0)) o.trim
         (minExactDigits (e.toNat + 1 + (if (truncateAndRound ds o).2 = true then 1 else 0) + 1) o)
-        (minExactDigits (truncateAndRound ds o).1.length o)) := by
+        (minExactDigits (roundPos ds e o).1.length o)) := by
   unfold posN at h
-  unfold needPosN
-  dsimp only at h
+  unfold needPosN roundPos
+  dsimp only at h ⊢
   generalize truncateAndRound ds o = tr at hc1 hc2 h ⊢
-  obtain ⟨ds', c⟩ := tr
+  obtain ⟨dr, c⟩ := tr
   dsimp only at hc1 hc2 h ⊢
-  generalize e.toNat + 1 + (if c = true then 1 else 0) = leading at h ⊢
+  have hk := trimPos_length o (e.toNat + 1 + (if c = true then 1 else 0)) dr hc1 (by omega)
+  generalize e.toNat + 1 + (if c = true then 1 else 0) = leading at h hk ⊢
+  generalize trimPos o leading dr = ds' at h hk ⊢
   generalize minExactDigits (leading + 1) o = ex1 at h ⊢
   generalize minExactDigits ds'.length o = ex at h ⊢
   by_cases c1 : leading ≥ ds'.length
@@ -123,14 +127,16 @@ theorem sciBody_ok_iff (fmt : Format) (n : Nat) (frac : List Nat) (o : WOpts) (b
 theorem sciN_panic_iff (fmt : Format) (feats : Features) (nd : Nat) (ds : List Nat) (e : Int) (o : WOpts) (b : WBuf)
     (hc1 : 1 ≤ (truncateAndRound ds o).1.length) (hc2 : (truncateAndRound ds o).1.length ≤ ds.length) :
     sciN fmt feats nd ds e o b = .panic ↔
-      b.len < needSciN fmt feats nd ds.length (truncateAndRound ds o).1.length o
+      b.len < needSciN fmt feats nd ds.length (roundSci ds o).1.length o
         (expSign fmt feats (e + (if (truncateAndRound ds o).2 = true then 1 else 0))).length
         (numeral fmt.exponentRadix (e + (if (truncateAndRound ds o).2 = true then 1 else 0)).natAbs).length := by
-  unfold sciN needSciN
+  unfold sciN needSciN roundSci
   dsimp only
   generalize truncateAndRound ds o = tr at hc1 hc2 ⊢
-  obtain ⟨ds', c⟩ := tr
+  obtain ⟨dr, c⟩ := tr
   dsimp only at hc1 hc2 ⊢
+  have hk := trimSci_length o dr hc1
+  generalize trimSci o dr = ds' at hk ⊢
   generalize e + (if c = true then 1 else 0) = e'
   have hge := needExp_ge feats fmt.exponentRadix (bodyCur fmt ds'.length o) (expSign fmt feats e').length
     (numeral fmt.exponentRadix e'.natAbs).length
@@ -155,18 +161,20 @@ theorem sciN_ok_facts (fmt : Format) (feats : Features) (nd : Nat) (ds : List Na
     (hc1 : 1 ≤ (truncateAndRound ds o).1.length) (hc2 : (truncateAndRound ds o).1.length ≤ ds.length)
     (h : sciN fmt feats nd ds e o b = .ok r) :
     r.buf.len = b.len ∧
-    r.cursor ≤ needSciN fmt feats nd ds.length (truncateAndRound ds o).1.length o
+    r.cursor ≤ needSciN fmt feats nd ds.length (roundSci ds o).1.length o
         (expSign fmt feats (e + (if (truncateAndRound ds o).2 = true then 1 else 0))).length
         (numeral fmt.exponentRadix (e + (if (truncateAndRound ds o).2 = true then 1 else 0)).natAbs).length ∧
-    r.buf.hi ≤ max b.hi (needSciN fmt feats nd ds.length (truncateAndRound ds o).1.length o
+    r.buf.hi ≤ max b.hi (needSciN fmt feats nd ds.length (roundSci ds o).1.length o
         (expSign fmt feats (e + (if (truncateAndRound ds o).2 = true then 1 else 0))).length
         (numeral fmt.exponentRadix (e + (if (truncateAndRound ds o).2 = true then 1 else 0)).natAbs).length) := by
   unfold sciN at h
-  unfold needSciN
-  dsimp only at h
+  unfold needSciN roundSci
+  dsimp only at h ⊢
   generalize truncateAndRound ds o = tr at hc1 hc2 h ⊢
-  obtain ⟨ds', c⟩ := tr
+  obtain ⟨dr, c⟩ := tr
   dsimp only at hc1 hc2 h ⊢
+  have hk := trimSci_length o dr hc1
+  generalize trimSci o dr = ds' at h hk ⊢
   generalize e + (if c = true then 1 else 0) = e' at h ⊢
   simp only [bind_ok_iff, demand_ok_iff, blit_ok_iff, get_ok_iff, set_ok_iff, ex_elim, ex_elim_unit] at h
   obtain ⟨_, _, _, _, _, _, r1, h1, h2⟩ := h
